@@ -203,7 +203,7 @@ pub async fn run(seed: u64, sched: Rc<Sched>, keep_log: bool) -> (CaseResult, Ve
     let genesis = w.committee.genesis.hash();
     let other_genesis: validator::GenesisHash = rng.gen();
     let (av, a1, aadv) = (addr(3000), addr(3001), addr(3999));
-    let strategy = rng.gen_range(0..16u32);
+    let strategy = rng.gen_range(0..17u32);
     let needs_h1 = matches!(strategy, 2 | 7 | 9 | 10);
     let dyn_limit = rng.gen_range(0..3usize);
     let static_in: HashSet<node::PublicKey> = if rng.gen_bool(0.5) { [w.node_keys[1].public()].into() } else { HashSet::new() };
@@ -344,7 +344,7 @@ pub async fn run(seed: u64, sched: Rc<Sched>, keep_log: bool) -> (CaseResult, Ve
                 let h1net_opt = h1slot.as_ref().and_then(|s| s.lock().unwrap().clone());
                 if let Some(h1net) = h1net_opt {
                     let ann = Arc::new(v0key.sign_msg(validator::NetAddress { addr: aadv, version: 5, timestamp: adv_clock.now_utc() }));
-                    let _ = network::verif::push_validator_addrs(&h1net, &[ann]).await;
+                    let _ = network::verif::push_validator_addrs(&h1net, ctx, &[ann]).await;
                 }
                 let r = async {
                     let (tcp, _) = ctx.wait(l.accept()).await.ok()?.ok()?;
@@ -374,7 +374,7 @@ pub async fn run(seed: u64, sched: Rc<Sched>, keep_log: bool) -> (CaseResult, Ve
                 let vnet_opt = vslot.lock().unwrap().clone();
                 if let Some(vnet) = vnet_opt {
                     let ann = Arc::new(claimed.sign_msg(validator::NetAddress { addr: aadv, version: 1, timestamp: adv_clock.now_utc() }));
-                    let _ = network::verif::push_validator_addrs(&vnet, &[ann]).await;
+                    let _ = network::verif::push_validator_addrs(&vnet, ctx, &[ann]).await;
                 }
                 let r = async {
                     let (tcp, _) = ctx.wait(l.accept()).await.ok()?.ok()?;
@@ -396,7 +396,7 @@ pub async fn run(seed: u64, sched: Rc<Sched>, keep_log: bool) -> (CaseResult, Ve
                 let vnet_opt = vslot.lock().unwrap().clone();
                 if let Some(vnet) = vnet_opt {
                     let ann = Arc::new(v1key.sign_msg(validator::NetAddress { addr: aadv, version: 1, timestamp: adv_clock.now_utc() }));
-                    let _ = network::verif::push_validator_addrs(&vnet, &[ann]).await;
+                    let _ = network::verif::push_validator_addrs(&vnet, ctx, &[ann]).await;
                 }
                 let r = async {
                     let (tcp, _) = ctx.wait(l.accept()).await.ok()?.ok()?;
@@ -433,7 +433,7 @@ pub async fn run(seed: u64, sched: Rc<Sched>, keep_log: bool) -> (CaseResult, Ve
                 let vnet_opt = vslot.lock().unwrap().clone();
                 if let Some(vnet) = vnet_opt {
                     let ann = Arc::new(v1key.sign_msg(validator::NetAddress { addr: aadv, version: 1, timestamp: adv_clock.now_utc() }));
-                    let _ = network::verif::push_validator_addrs(&vnet, &[ann]).await;
+                    let _ = network::verif::push_validator_addrs(&vnet, ctx, &[ann]).await;
                 }
                 let r = async {
                     let (tcp, _) = ctx.wait(l.accept()).await.ok()?.ok()?;
@@ -485,6 +485,33 @@ pub async fn run(seed: u64, sched: Rc<Sched>, keep_log: bool) -> (CaseResult, Ve
                         keep.push(s);
                     }
                 }
+            }
+            // O5: the victim's own public address is hijacked: its loopback dial reaches the
+            // adversary, which answers claiming to be the victim itself (signed with VB's key).
+            16 => {
+                let Ok(mut l) = net2.listen_as(aadv, "adv") else { return };
+                net2.0.lock().unwrap().hijack.insert(av, aadv);
+                let k = net2.cut(|c| c.client == "victim" && c.server == "victim");
+                note(format!("O5 hijacked the victim's own address, cut {k} loopback connections"));
+                for _ in 0..arng.gen_range(1..6) {
+                    let r = async {
+                        let (tcp, _) = ctx.wait(l.accept()).await.ok()?.ok()?;
+                        let (mut s, _ep) = preface_accept(ctx, tcp).await?;
+                        let _their = recv_frame(&mut s).await?;
+                        let sid = session_id(&s);
+                        let mut signed = vb.sign_msg(sid);
+                        signed.key = v0pub.clone();
+                        send_frame(&mut s, &consensus_handshake(&signed, &genesis)).await;
+                        Some(s)
+                    }
+                    .await;
+                    match r {
+                        Some(s) => keep.push(s),
+                        None => break,
+                    }
+                }
+                drop(l);
+                net2.0.lock().unwrap().hijack.remove(&av);
             }
             // G: gossip endpoint. Several identities dial: outsiders (quota), a forged static peer.
             _ => {
